@@ -339,6 +339,30 @@ Verdict prop(Tape& t, Run& run) {
 		if (!r.hasNormals || r.normals.size() != expectNv || d > (isBs ? 1.0 / 127 + 1e-6 : 0.0))
 			return run.fail(sigBase + ":reload-normals", detail("normals differ after reload: " + std::to_string(d)));
 	}
+	if (after.hasTangents && !after.hasNormals)
+		run.cls("tangents-without-normals (the formats store tangent space only inside the normals section)");
+	if (after.hasTangents && after.hasNormals) {
+		// tangent-space arrays survive the reload (Oblivion keeps them in a binary extra-data block,
+		// FO3+ inside the geometry data, BSTriShape byte-quantised in the vertex records)
+		double dt = maxDiff3(r.tangents, after.tangents), db = maxDiff3(r.bitangents, after.bitangents);
+		run.maxi("reload-tangent-error", std::max(dt, db));
+		run.cls("reload-compared:tangents");
+		if (!r.hasTangents || r.tangents.size() != expectNv || r.bitangents.size() != expectNv)
+			return run.fail(sigBase + ":reload-tangents", detail("tangents/bitangents missing or of the wrong size after reload: " + std::to_string(r.tangents.size()) + "/" + std::to_string(r.bitangents.size())));
+		if (dt > (isBs ? 1.0 / 127 + 1e-6 : 0.0) || db > (isBs ? 1.0 / 127 + 1e-6 : 0.0))
+			return run.fail(sigBase + ":reload-tangents", detail("tangents/bitangents differ after reload: " + std::to_string(dt) + " / " + std::to_string(db)));
+	}
+	if (after.hasEye) {
+		run.cls("reload-compared:eyedata");
+		if (!r.hasEye || !bitEqual(r.eye, after.eye))
+			return run.fail(sigBase + ":reload-eyedata", detail("eye data missing or different after reload"));
+	}
+	if (setter == 9) {
+		BoundingSphere g = shapes[0]->GetBounds(), b = shape->GetBounds();
+		run.cls("reload-compared:bounds");
+		if (memcmp(&g.center, &b.center, sizeof(Vector3)) != 0 || g.radius != b.radius)
+			return run.fail(sigBase + ":reload-bounds", detail("bounds differ after reload"));
+	}
 	if (after.hasColors && setter == 6) {
 		double d = 0;
 		for (size_t i = 0; i < expectNv && i < r.colors.size(); i++)
